@@ -395,7 +395,7 @@ def add_targets(E, spec, pid):
     contracts["TLSTransportWrapper.write"] = Contract(
         f"{TW}.write", make_args=w_args,
         ensures=[("[C06] never raises (transport contract T)", no_raise),
-                 ("[C06] write(d): OpenSSL has accepted exactly d (all of it, in order) unless the TLS session failed; every ciphertext byte produced went to TCP in order", w_post)])
+                 ("[C01,C06] write(d): OpenSSL has accepted exactly d (all of it, in order) unless the TLS session failed; every ciphertext byte produced went to TCP in order", w_post)])
 
     def w_inv(ctx, fr, i):
         w = fr.locals["self"]
@@ -452,7 +452,7 @@ def add_targets(E, spec, pid):
     contracts["TLSTransportWrapper.close"] = Contract(
         f"{TW}.close", make_args=c_args,
         ensures=[("[C06] never raises", no_raise),
-                 ("[C06,C15] close(): TLS shutdown, its ciphertext flushed in order, then the TCP transport closed (whether or not the peer has sent its close_notify); no plaintext added", c_post)])
+                 ("[C01,C06,C15] close(): TLS shutdown, its ciphertext flushed in order, then the TCP transport closed (whether or not the peer has sent its close_notify); no plaintext added", c_post)])
 
     def ic_post(ctx, old, args, outcome):
         (w,) = args
